@@ -3,14 +3,14 @@ CONSTANTS
   Parties = {"p1", "p2", "p3"}
   Creator = "p1"
   MaxCommits = 2
-  MaxProps = 1
-  MaxKps = 2
+  MaxProps = 0
+  MaxKps = 3
   MaxEpoch = 2
   PathRequiredChoices = {FALSE}
   EncChoices = {FALSE}
   ByValueMax = 1
   AllowConflicts = FALSE
-  Features = {}
+  Features = {"succ", "reinit"}
   Window = 2
   Retention = 2
   BurstSizes = {1, 2}
@@ -19,7 +19,7 @@ CONSTANTS
   JitterChoices = {99999}
   Deviations = {"F12", "F14"}
   MaxApps = 0
-  MaxSucc = 6
+  MaxSucc = 1
   Depth = 1000
   BootSize = 0
   WProgress = 60
@@ -30,6 +30,8 @@ CONSTANTS
 VIEW view
 INVARIANT TypeOK
 INVARIANT Agreement
+INVARIANT SuccessorsLegal
+PROPERTY FrozenNeverAdvances
 INVARIANT EpochIsChainLength
 INVARIANT TreesValid
 INVARIANT PrivMatchesPub
